@@ -65,7 +65,7 @@ func socksServer(l net.Listener, c *counter, key string) {
 	}
 }
 
-func httpServer(l net.Listener, c *counter, key, kind string) {
+func httpServer(l net.Listener, c *counter, key, kind string, secondFails bool) {
 	mux := http.NewServeMux()
 	mux.HandleFunc("/", func(w http.ResponseWriter, r *http.Request) {
 		w.Header().Set("Content-Type", "application/json")
@@ -73,6 +73,12 @@ func httpServer(l net.Listener, c *counter, key, kind string) {
 		case kind == "elastic" && r.URL.Path == "/":
 			c.hit(key)
 			fmt.Fprint(w, `{"name":"n-`+key+`","cluster_name":"c","version":{"number":"7.1.0"}}`)
+		case kind == "elastic" && secondFails:
+			// a secured cluster: the SECOND request of the exchange (the index list) is refused with a non-JSON body;
+			// the cluster has been detected by the first one and is still one outcome, reported once
+			w.Header().Set("Content-Type", "text/plain")
+			w.WriteHeader(http.StatusForbidden)
+			fmt.Fprint(w, "missing authentication credentials")
 		case kind == "elastic":
 			fmt.Fprint(w, `{}`)
 		case strings.HasSuffix(r.URL.Path, "/_ping"):
@@ -128,7 +134,7 @@ func runE2E(sx, outp string) {
 				if kind == "socks" {
 					go socksServer(l, cnt, key)
 				} else {
-					go httpServer(l, cnt, key, kind)
+					go httpServer(l, cnt, key, kind, i == 1)
 				}
 			}
 			order := []int{ports[0], ports[1], ports[0]}
